@@ -194,7 +194,17 @@ pub enum Step {
     /// compute the id of a key on a node
     Id { node: usize, slot: usize },
     /// offer a text to a parser (C09 / C10)
-    Offer { text: TextRef, faults: Vec<TokFault>, reader: Bk, artifact: Artifact },
+    Offer {
+        text: TextRef,
+        faults: Vec<TokFault>,
+        reader: Bk,
+        artifact: Artifact,
+        /// for literal texts: Some(false) = must be rejected (class given by `why`), Some(true) = must be accepted
+        #[serde(default)]
+        expect: Option<bool>,
+        #[serde(default)]
+        why: String,
+    },
     /// serde representation check
     Serde { text: TextRef, reader: Bk, artifact: Artifact },
     /// a scripted multi-thread episode (C17)
